@@ -339,13 +339,27 @@ class _Optimizers(_Algorithm2D):
         elif len(method_kwargs) != num_axes:
             raise ValueError('Method kwargs must have the same length as the input axes')
 
+        # data is not sorted within this method, so have to reset x and z ordering to match
+        # the input data and let each one dimensional fitter handle the sorting
+        x = self.x
+        z = self.z
+        if self._sort_order is not None:
+            if isinstance(self._sort_order, tuple):
+                if self._sort_order[0] is not Ellipsis:
+                    x = self.x[self._inverted_order[0][:, 0]]
+                    z = self.z[self._inverted_order[1][0]]
+                else:
+                    z = self.z[self._inverted_order[1]]
+            else:
+                x = self.x[self._inverted_order]
+
         keys = ('rows', 'columns')
         baseline = np.zeros(self._shape)
         params = {}
         for i, axis in enumerate(axes):
             fitter = Baseline(
-                (self.x, self.z)[axis], check_finite=self._check_finite, assume_sorted=True,
-                output_dtype=self._dtype
+                (x, z)[axis], check_finite=self._check_finite,
+                assume_sorted=self._sort_order is None, output_dtype=self._dtype
             )
             fitter.banded_solver = self.banded_solver
             baseline_func = fitter._get_method(method)
